@@ -38,7 +38,8 @@ def blocks(fi):
 
 
 def current_view_rule(m, run, fi):
-    """GA1: a local holding a view of the object's control points (obj.ctrlpts / obj.ctrlptsw / obj.ctrlpts2d ...) is not used after the
+    """GA1: a local holding a view of the object's control points or a value computed from its sizes (obj.ctrlpts / obj.ctrlptsw /
+    obj.ctrlpts_size_u * obj.ctrlpts_size_v ...) is not used after the
     object's net has been replaced by set_ctrlpts: on no path does a use of the local follow a set_ctrlpts call without a
     re-definition in between (the second direction of a multi-direction operation must start from the net the first one produced)"""
     from .cfg import CFG
@@ -47,7 +48,7 @@ def current_view_rule(m, run, fi):
     defs = {}
     for n in walk_no_nested(fi.node):
         if isinstance(n, ast.Assign) and len(n.targets) == 1 and isinstance(n.targets[0], ast.Name):
-            if any(isinstance(x, ast.Attribute) and isinstance(x.value, ast.Name) and x.value.id == obj and x.attr.startswith('ctrlpts') and 'size' not in x.attr
+            if any(isinstance(x, ast.Attribute) and isinstance(x.value, ast.Name) and x.value.id == obj and x.attr.startswith('ctrlpts')
                    for x in ast.walk(n.value)) and not any(isinstance(x, ast.Call) for x in ast.walk(n.value)):
                 defs.setdefault(n.targets[0].id, []).append(n)
     setters = [cfg.node_of(c) for c in walk_no_nested(fi.node) if isinstance(c, ast.Call) and isinstance(c.func, ast.Attribute)
@@ -78,8 +79,8 @@ def current_view_rule(m, run, fi):
         n_rule += 1
         run.ob('GA1.view-is-current', '%s :: %s' % (fi.key, name), stale is None,
                '`%s` is re-read from the object after every set_ctrlpts that precedes a use' % name if stale is None else
-               '`%s` (defined at line %d from the object\'s control points) is still used at line %d after set_ctrlpts at line %d replaced the net: '
-               'the later direction works on the net from before the earlier direction, with the new sizes'
+               '`%s` (defined at line %d from the object\'s control points / sizes) is still used at line %d after set_ctrlpts at line %d replaced the net: '
+               'the later direction works with the net or the sizes from before the earlier direction'
                % (name, stale[0].lineno, stale[2].lineno, stale[1].ast.lineno), site(fi, stale[2] if stale else ds[0]))
     return n_rule
 
